@@ -63,6 +63,9 @@ func PrintFile(f *File, pkgName string, style uint64) string {
 		return printProto(f, pkgName)
 	}
 	p := NewPrinter(style)
+	if f.DeclPkg != "" {
+		pkgName = f.DeclPkg
+	}
 	p.line("package %s", pkgName)
 	p.blank()
 	for _, im := range f.Imports {
@@ -254,6 +257,12 @@ func (p *Printer) fieldSpec(f *Field, prefix string, entityKey bool) (string, []
 		t := f.Ref
 		if f.Flatten {
 			attr("%sflatten = true", prefix)
+		}
+		if f.Kind == FEnum && f.HasList {
+			attr("%slistRules.filtering.filterable = true", prefix)
+			if len(f.ListFilters) > 0 {
+				attr("%slistRules.filtering.defaultFilters = %s", prefix, litString(Lit{Kind: "strs", Strs: f.ListFilters}))
+			}
 		}
 		switch t.Kind {
 		case RRef:
